@@ -169,7 +169,8 @@ fn build_member(idx: usize, n: usize, x: usize, cfg: &Value, picker: &mut Picker
             vsym = env::register_u64(&format!("v_{}_{}", nidx, j), "value", v, json!({"member":nidx,"j":j}));
         }
         let (p, mut psym) = match &pmode {
-            Value::String(s) if s == "sym" => match picker.pick(7.min(v), v / 2) {
+            // a symbolic promise needs a symbolic value (the tie v = p + sum b 2^i); otherwise it stays a concrete number
+            Value::String(s) if s == "sym" => match if vsym || !sym_values { picker.pick(7.min(v), v / 2) } else { None } {
                 Some(p) => (Some(p), true),
                 None => (Some(v / 2), false),
             },
